@@ -154,6 +154,12 @@ def rep (r : RE) (lo : Nat) : Option Nat → RE
   | none => .cat (repN r lo) (.star r)
   | some hi => .cat (repN r lo) (repOpt r (hi - lo))
 
+/-- `k` consecutive matches of `r`, each in its context ([66]-[71]: a quantified piece matches
+"at least n and at most m consecutive" matches of its atom) -/
+def Pow (r : RE) : Nat → Option Ch → List Ch → Option Ch → Prop
+  | 0, _, w, _ => w = []
+  | k + 1, p, w, n => ∃ w1 w2, w = w1 ++ w2 ∧ Matches r p w1 (ctxR w2 n) ∧ Pow r k (ctxL p w1) w2 n
+
 /-! ## 3. surface syntax and recogniser -/
 
 inductive EscKind where | s | d | w | i | c
